@@ -15,16 +15,17 @@ TReset == Is("Init") /\ prog' = Ev.prog /\ res' = Ev.res /\ done' = ToSet(Ev.pre
 \* a completer thread is about to complete source i
 TDone  == Is("Done") /\ done' = done \cup {Ev.i} /\ UNCHANGED <<prog, res, derived>> /\ Adv
 Seen(ev) == [st |-> IF ev.ok THEN "ok" ELSE "fail", v |-> ev.v, e |-> ev.err]
-\* observation after a scheduling step
+\* observation after a scheduling step: Ev.any = some derived future is complete (its value is reported),
+\* Ev.c = all of them are (several threads may each have built the expression on the shared sources)
 TObs   == /\ Is("Obs") /\ Adv /\ UNCHANGED <<prog, res, done>>
-          /\ IF ~Ev.c THEN derived = Pending /\ UNCHANGED derived
+          /\ IF ~Ev.any THEN derived = Pending /\ UNCHANGED derived
              ELSE /\ PEval(prog, done, res) = Seen(Ev)                  \* never earlier, and the right value
-                  /\ derived \in {Pending, Seen(Ev)}                  \* single assignment
+                  /\ derived \in {Pending, Seen(Ev)}                    \* single assignment
                   /\ derived' = Seen(Ev)
-\* quiescence: no runnable thread or task is left
+\* quiescence: no runnable thread or task is left - every derived future is complete iff PEval is settled
 TEnd   == /\ Is("End") /\ Adv /\ UNCHANGED <<prog, res, done>>
-          /\ IF ~Ev.c THEN derived = Pending /\ PEval(prog, done, res).st = "blocked" /\ UNCHANGED derived
-             ELSE /\ PEval(prog, done, res) = Seen(Ev) /\ derived \in {Pending, Seen(Ev)} /\ derived' = Seen(Ev)
+          /\ IF ~Ev.any THEN derived = Pending /\ PEval(prog, done, res).st = "blocked" /\ UNCHANGED derived
+             ELSE /\ Ev.c /\ PEval(prog, done, res) = Seen(Ev) /\ derived \in {Pending, Seen(Ev)} /\ derived' = Seen(Ev)
 TNext  == TReset \/ TDone \/ TObs \/ TEnd
 TSpec  == TInit /\ [][TNext]_tvars
 HighWater == TLCSet(1, IF TLCGet(1) < l THEN l ELSE TLCGet(1))
